@@ -8,12 +8,29 @@ from ..number import Context
 from ..primitive import Primitive
 from .call_graph import CallGraph
 from .define_use import AssignDef, DefineUse, DefineUseAnalysis
+from .reaching_defs import Definition, PhiDef
 
 
 class _ImpureError(Exception):
     """
     Exception raised when an impure exception is detected.
     """
+
+
+class _Variables(DefaultVisitor):
+    """Collects the variables an expression reads."""
+
+    def __init__(self):
+        self.found: list[Var] = []
+
+    def _visit_var(self, e: Var, ctx: None):
+        self.found.append(e)
+
+
+def _variables(e: Expr) -> list[Var]:
+    finder = _Variables()
+    finder._visit_expr(e, None)
+    return finder.found
 
 
 class _Purity(DefaultVisitor):
@@ -66,9 +83,46 @@ class _Purity(DefaultVisitor):
     def _visit_indexed_assign(self, stmt: IndexedAssign, ctx: None):
         super()._visit_indexed_assign(stmt, ctx)
         d = self.def_use.find_def_from_use(stmt)
-        if isinstance(d, AssignDef) and isinstance(d.site, Argument | FuncDef):
-            # modifying an argument or a free variable
+        # one index writes the list the name is bound to; more write a list
+        # that is an element of it, which a fresh list may hold by reference
+        if self._may_be_outer(d, len(stmt.indices) == 1, set()):
+            # modifying (an alias of) an argument or a free variable
             raise _ImpureError(f'Impure: Indexed assignment {stmt}')
+
+    def _may_be_outer(self, d: Definition, fresh_ok: bool, seen: set[Definition]) -> bool:
+        """Whether the list that `d` binds may be, or be part of, an argument
+        or a free variable.  `fresh_ok`: an expression that allocates a new
+        list settles the question (it does not when an element is written)."""
+        if d in seen:
+            return False
+        seen.add(d)
+        if isinstance(d, PhiDef):
+            return (
+                self._may_be_outer(self.def_use.defs[d.lhs], fresh_ok, seen)
+                or self._may_be_outer(self.def_use.defs[d.rhs], fresh_ok, seen)
+            )
+        match d.site:
+            case Argument() | FuncDef():
+                return True
+            case IndexedAssign():
+                # an in-place update: the storage is that of the previous definition
+                return d.prev is None or self._may_be_outer(self.def_use.defs[d.prev], fresh_ok, seen)
+            case Assign():
+                source: Expr = d.site.expr
+            case ForStmt():
+                # the target is an element of the iterable
+                source, fresh_ok = d.site.iterable, False
+            case _:
+                # `with ... as c` and comprehension targets bind no outer list
+                return False
+        if fresh_ok and isinstance(source, ListExpr | ListComp | ListSlice | Range1 | Range2 | Range3 | Empty):
+            return False
+        # anything else may hand on what it mentions: a copy, an element, a
+        # field of a tuple, an arm of an if-expression, the result of a call
+        return any(
+            self._may_be_outer(self.def_use.find_def_from_use(v), False, seen)
+            for v in _variables(source)
+        )
 
 
 class Purity:
